@@ -38,6 +38,41 @@ def op_valid(kind, op, net, other=None, clash=False):
     raise RuntimeError(kind)
 
 
+def merge_starves_a_bond(net, other, joins):
+    """Do the joins leave a (fused) bond with fewer than two legs?  Decided from the two operands before the call.  The joined
+    open axes disappear; a bond that consists of open legs only (an idle wire) and is joined at ALL its legs with such bonds
+    becomes a free loop (a scalar factor = its dimension), one that keeps a single leg a free sum - neither is a network the
+    consistency check admits (every bond needs >= 2 legs).  /repo notices it by `assert len(bond.tids) >= 2` AFTER it has
+    included the second operand's tensors and bonds and fused the virtual tensors: known finding, see notes/C08.md."""
+    b1, b2 = list(net.net.tensors[-1].bids), list(other.net.tensors[-1].bids)
+    if not all(0 <= a < len(b1) and 0 <= b < len(b2) for a, b in joins):
+        return False
+    uf = {}
+
+    def find(x):
+        while uf.get(x, x) != x:
+            x = uf[x]
+        return x
+    for a, b in joins:
+        ra, rb = find(("a", b1[a])), find(("b", b2[b]))
+        if ra != rb:
+            uf[rb] = ra
+    legs = {}
+    for side, stn in (("a", net.net), ("b", other.net)):
+        for bid, bond in stn.bonds.items():
+            r = find((side, bid))
+            legs[r] = legs.get(r, 0) + len(bond.tids)
+    for a in {j[0] for j in joins}:
+        legs[find(("a", b1[a]))] -= 1
+    for b in {j[1] for j in joins}:
+        legs[find(("b", b2[b]))] -= 1
+    touched = {find(("a", b1[a])) for a, _ in joins}
+    return any(legs[r] < 2 for r in touched)
+
+
+STARVED_SIG = "merge:joins-leave-a-bond-with-fewer-than-two-legs:AssertionError-after-the-operands-were-half-merged"
+
+
 def contraction_side(net, ref, kind, fails):
     """the IMPLEMENTATION's contractions on the current network object (same object along the whole
     history, so anything remembered from before the last operation shows): both must expand to the
@@ -91,7 +126,7 @@ def exec_sequence(desc, ops, build=None):
         before = tn.snapshot(net.net)
         before_vbids = list(net.net.tensors[-1].bids)
         cnt0 = (net.num_tensors, net.num_bonds, net.num_open_axes)
-        accepted, clash = True, False
+        accepted, clash, starved = True, False, False
         term = None
         other = None
         valid = None
@@ -134,6 +169,9 @@ def exec_sequence(desc, ops, build=None):
                 ovb = other_vbids(other)
                 clash = any(k in net.data and not np.array_equal(net.data[k], other.data[k]) for k in other.data)
                 valid = op_valid(kind, op, net, other, clash)
+                starved = bool(valid) and merge_starves_a_bond(net, other, joins)
+                if starved:
+                    valid = None          # not representable: a clean refusal is fine, see merge_starves_a_bond
                 if kind == "merge":
                     others.append((other, osnap))
                 # the iteration order of the Python sets `self.keys() & other.keys()` inside merge is an input
@@ -190,7 +228,11 @@ def exec_sequence(desc, ops, build=None):
                 stopped = True
                 break
         except Exception as e:
-            fails.append(("%s:exception:%s" % (kind, type(e).__name__), "ValueError or accept", repr(e)))
+            if starved and isinstance(e, AssertionError):
+                fails.append((STARVED_SIG, "ValueError before anything is changed",
+                              "AssertionError; first operand consistent afterwards: %s" % safe_consistent(net.net)))
+            else:
+                fails.append(("%s:exception:%s" % (kind, type(e).__name__), "ValueError or accept", repr(e)))
             rec["steps"].append({"op": op, "term": term, "obs": "crash"})
             stopped = True
             break
@@ -239,13 +281,8 @@ def exec_sequence(desc, ops, build=None):
             rec["clash"] = True
             stopped = True
             break
-        newval = tn.ref_dense(net.net, net.data)
-        if kind in ("rename_tensor", "rename_bond"):
-            expect = val
-        elif kind == "transpose":
-            expect = np.transpose(val, eff)
-        else:
-            expect = tn.ref_merge_value(val, ovalue, joins)
+        if kind in ("merge", "merge_self"):
+            # counts first (they need no data): tensors add up, bonds add up minus the fused ones, open axes minus the joined ones
             uf = {}
 
             def find(x):
@@ -262,6 +299,22 @@ def exec_sequence(desc, ops, build=None):
                     cnt0[2] + ocnt[2] - len({j[0] for j in joins}) - len({j[1] for j in joins}))
             if cnt != want:
                 fails.append(("merge:counts-do-not-add-up", want, cnt))
+            if any(t.dataref is None for k, t in net.net.tensors.items() if k != -1):
+                fails.append(("merge:leaves-a-logical-tensor-without-data-reference", "every tensor but -1 refers to data", "dataref None"))
+            if cons and not net.is_consistent():
+                fails.append(("merge:TensorNetwork.is_consistent-false-after-accepted-op", True, False))
+        try:
+            newval = tn.ref_dense(net.net, net.data)
+        except Exception as e:
+            fails.append((kind + ":result-has-no-defining-sum:" + type(e).__name__, "a network over the data dictionary", repr(e)[:200]))
+            stopped = True
+            break
+        if kind in ("rename_tensor", "rename_bond"):
+            expect = val
+        elif kind == "transpose":
+            expect = np.transpose(val, eff)
+        else:
+            expect = tn.ref_merge_value(val, ovalue, joins)
         if newval.shape != expect.shape or not np.array_equal(newval, expect):
             fails.append((kind + ":value-semantics", "shape %s" % (expect.shape,), "shape %s, differs" % (newval.shape,)))
         if tuple(net.shape) != tuple(newval.shape):
@@ -461,6 +514,10 @@ def gen_ops(rng, desc, thorough, prefix=None, maxlen=12):
         except ValueError:
             pass
         except Exception:
+            # the scratch simulation runs the implementation under test: an operation on which it misbehaves (raises something
+            # else, leaves a network whose size cannot be evaluated) must reach the oracles, not vanish from the sequence
+            if op is not None:
+                ops.append(op)
             break
         if op is None:
             continue
@@ -677,10 +734,92 @@ DIRECTED += [
     ("merge-with-itself", _G, [["merge_self", None, [[0, 2]]], ["merge_self", None, []]]),
     ("rename-to-existing-and-missing", _G, [["rename_tensor", 0, -1], ["rename_tensor", 7, 8], ["rename_tensor", 0, 0],
                                             ["rename_bond", 1, 2], ["rename_bond", 9, 3], ["rename_bond", 1, -1], ["rename_tensor", 0, -7]]),
+    # joins that close idle wires completely / leave one leg (KNOWN FINDING on the unrepaired /repo: AssertionError after a partial merge)
+    ("merge-closes-an-idle-wire-onto-an-idle-wire", {"tensors": [[-1, [2, 2], [0, 0], None]], "bonds": None, "data": {}},
+     [["merge", {"tensors": [[-1, [2, 2], [0, 0], None]], "bonds": None, "data": {}}, [[0, 0], [1, 1]]]]),
+    ("merge-joins-both-ends-of-a-wire-with-one-open-leg", {"tensors": [[0, [2], [3], "a"], [-1, [2], [3], None]], "bonds": None,
+                                                           "data": {"a": {"shape": [2], "re": [1, 2], "im": None}}},
+     [["merge", {"tensors": [[-1, [2, 2], [5, 5], None]], "bonds": None, "data": {}}, [[0, 0], [0, 1]]]]),
+    ("merge-wire-with-one-end-joined-stays-fine", _G,
+     [["merge", {"tensors": [[-1, [2, 2], [5, 5], None]], "bonds": None, "data": {}}, [[0, 0]]],
+      ["merge", {"tensors": [[-1, [2, 2], [5, 5], None]], "bonds": None, "data": {}}, [[1, 0], [2, 1]]], ["transpose", None]]),
+    ("merge-with-itself-closes-an-idle-wire", {"tensors": [[-1, [2, 2], [0, 0], None]], "bonds": None, "data": {}}, [["merge_self", None, [[0, 0], [1, 1]]]]),
     # data dictionaries that disagree on a key: must be refused
     ("merge-data-clash", _G, [["merge", {"tensors": [[1, [2], [0], "a"], [-1, [2], [0], None]], "bonds": None,
                                          "data": {"a": {"shape": [2], "re": [1, 1], "im": None}}}, [[0, 0]]]]),
 ]
+
+
+# ----------------------------------------------------------------------------- merges with closed / empty / scalar operands
+def _d(shape, vals):
+    return {"shape": list(shape), "re": list(vals), "im": None}
+
+
+def closed_networks():
+    """name -> description: networks at the degenerate end of 'number of open axes' and 'number of tensors' (no PRNG):
+    closed ones (no open axis; the virtual tensor has degree 0) - an inner product, a trace, a three-tensor hyper-bond, a bare
+    scalar (0-d tensor), two scalars, a scalar next to an inner product, colliding / negative ids -, the empty network, a network
+    of idle wires only (no tensor), a scalar next to open legs, and ordinary open networks as partners"""
+    return {
+        "inner": {"tensors": [[0, [2], [0], "u"], [1, [2], [0], "v"], [-1, [], [], None]], "bonds": None,
+                  "data": {"u": _d([2], [1, 2]), "v": _d([2], [3, -1])}},
+        "inner5": {"tensors": [[-1, [], [], None], [3, [3], [7], "p"], [-2, [3], [7], "q"]], "bonds": [[7, [-2, 3]]],
+                   "data": {"p": _d([3], [1, 0, 2]), "q": _d([3], [2, 5, -1])}},
+        "trace": {"tensors": [[0, [2, 2], [4, 4], "m"], [-1, [], [], None]], "bonds": None, "data": {"m": _d([2, 2], [1, 2, 3, 5])}},
+        "hyper3": {"tensors": [[0, [2], [0], "u"], [1, [2], [0], "v"], [2, [2], [0], "w"], [-1, [], [], None]], "bonds": None,
+                   "data": {"u": _d([2], [1, 2]), "v": _d([2], [3, -1]), "w": _d([2], [2, 1])}},
+        "scalar": {"tensors": [[0, [], [], "s"], [-1, [], [], None]], "bonds": None, "data": {"s": _d([], [3])}},
+        "scalars2": {"tensors": [[-1, [], [], None], [5, [], [], "s"], [0, [], [], "t"]], "bonds": [], "data": {"s": _d([], [3]), "t": _d([], [-2])}},
+        "scalar+inner": {"tensors": [[1, [], [], "t"], [0, [2], [0], "u"], [4, [2], [0], "u"], [-1, [], [], None]], "bonds": None,
+                         "data": {"t": _d([], [-2]), "u": _d([2], [1, 2])}},
+        "empty": {"tensors": [[-1, [], [], None]], "bonds": None, "data": {}},
+        "wire": {"tensors": [[-1, [2, 2], [0, 0], None]], "bonds": None, "data": {}},
+        "scalar+open": {"tensors": [[0, [], [], "s"], [1, [2, 3], [0, 1], "a"], [-1, [3, 2], [1, 0], None]], "bonds": None,
+                        "data": {"s": _d([], [3]), "a": _d([2, 3], [1, 2, 3, 4, 5, 6])}},
+        "matprod": {"tensors": [[0, [2, 3], [0, 1], "a"], [1, [3, 2], [1, 2], "b"], [-1, [2, 2], [0, 2], None]], "bonds": None,
+                    "data": {"a": _d([2, 3], [1, 2, 3, 4, 5, 6]), "b": _d([3, 2], [1, 0, 2, -1, 1, 3])}},
+        "wrap": copy.deepcopy(_W),
+    }
+
+
+def closed_merge_sequences(rng, thorough):
+    """(name, first operand, ops): every ordered pair (first, second) of the networks above in which at least one is closed /
+    empty / tensor-free, merged (joins only between open partners: none here, or one when both have an open axis of equal
+    dimension), then the history CONTINUES: a second merge with a closed and with an open operand, renames of a tensor / bond
+    that came from the closed operand, transposition, merge with itself, and random surgery (gen_ops) after that"""
+    N = closed_networks()
+    degenerate = ["inner", "inner5", "trace", "hyper3", "scalar", "scalars2", "scalar+inner", "empty", "wire", "scalar+open"]
+    out = []
+    k = 0
+    for a in N:
+        for b in N:
+            if a not in degenerate and b not in degenerate:
+                continue
+            k += 1
+            if not thorough and a not in ("inner", "scalar", "empty", "matprod", "wire") and b not in ("inner", "scalar", "empty") and k % 3:
+                continue
+            A, B = N[a], N[b]
+            va = [t for t in A["tensors"] if t[0] == -1][0]
+            vb = [t for t in B["tensors"] if t[0] == -1][0]
+            joins = [[i, j] for i in range(len(va[1])) for j in range(len(vb[1])) if va[1][i] == vb[1][j]][:1] if k % 2 else []
+            ops = [["merge", copy.deepcopy(B), joins]]
+            # continue the history: touch what came from the second operand, merge again (closed, then open), transpose
+            tb = [t[0] for t in B["tensors"] if t[0] != -1]
+            if tb:
+                ops.append(["rename_tensor", tb[0], 17])
+            follow = [["merge", copy.deepcopy(N["inner"]), []], ["merge", copy.deepcopy(N["scalar"]), []],
+                      ["merge", copy.deepcopy(N["wrap"]), []], ["merge_self", None, []], ["merge", copy.deepcopy(N["empty"]), []]]
+            ops.append(follow[k % len(follow)])
+            nopen = len(va[1]) + len(vb[1]) - 2 * len(joins)
+            if k % len(follow) == 2:
+                nopen += 2
+            elif k % len(follow) == 3:
+                nopen *= 2
+            if nopen <= 6:
+                ops.append(["transpose", list(reversed(range(nopen)))])
+            ops.append(follow[(k + 1) % 2])
+            out.append(("%s<-%s" % (a, b), copy.deepcopy(A), ops))
+    return out
 
 
 def case_term(rec, net, fails):
@@ -741,6 +880,10 @@ def run(ctx):
                      "random networks, merged with an equally described wrap and with an equal copy of themselves, then random surgery, built by a caller who "
                      "(shared) passes ONE list / tuple / numpy array object for all equal shape, bond-id and tensor-id sequences of all tensors, bonds and "
                      "operands, or (mutate-after) overwrites his lists / arrays after the constructor calls; all oracles as above + the caller's objects unchanged. "
+                     "Degenerate operands of merge (no PRNG): every ordered pair of {inner products, trace, three-tensor hyper-bond, bare scalar, two scalars, "
+                     "scalar + inner product, empty network, idle wires only, scalar + open legs, matrix product, wrap} with at least one closed / empty / "
+                     "tensor-free member, then the history continues (rename what came from the operand, merge again with a closed and an open network, "
+                     "with itself, transpose, random surgery); counts, TensorNetwork.is_consistent, value, both contractions after every step. "
                      "non-trivial = sequence with >=1 accepted operation on a network with >=1 bond")
     ctx.lib(["TN/TNCheck", "TN/TNSem", "TN/TNMergeValue", "TN/TNConsistentConv", "TN/TNGenBase"])
     ctx.translate("GenTN", tn.generate)
@@ -760,6 +903,11 @@ def run(ctx):
     for i in range(150 if ctx.thorough else 45):
         fam, desc, pre = gen_owned(rng)
         seqs.append(("owned:" + fam, desc, gen_ops(rng, desc, ctx.thorough, prefix=pre, maxlen=5), owners[i % len(owners)]))
+    # the degenerate end of the open-axes / tensor-count dimensions: closed, empty, scalar-only operands of merge, histories continue
+    for i, (name, d, o) in enumerate(closed_merge_sequences(rng, ctx.thorough)):
+        o = gen_ops(rng, d, ctx.thorough, prefix=o, maxlen=3) if i % 2 else o
+        seqs.append(("closed:" + name, d, o, owners[i % len(owners)] if i % 4 == 3 else None))
+        ctx.count("closed_operand_sequences")
     for name, desc, ops, owner in seqs:
         if ops is None:
             ops = gen_ops(rng, desc, ctx.thorough)
@@ -770,7 +918,7 @@ def run(ctx):
             inp["owner"] = owner
             rec, fails, net = run_owned(desc, ops, owner)
             ctx.count("owned_%s_%s" % (owner["mode"], owner["kind"]))
-            ctx.count("owned_family_" + name.split(":")[1])
+            ctx.count("owned_family_" + name.split(":")[1].split("<-")[0])
         for sig, exp, obs in fails:
             ctx.fail(sig, tn.to_jsonable(inp), exp, obs)
         for s in rec["steps"]:
